@@ -270,6 +270,10 @@ func run(c *core.Ctx) {
 
 	// ---- tasks and their operations (all draws happen here)
 	nTasks := 2 + t.Draw(5)
+	if t.Bool(1, 8) {
+		// a busy server: 8..12 request goroutines on the same value
+		nTasks = 8 + t.Draw(5)
+	}
 	maxOps := 1 + t.Draw(6)
 	defs := e.catalogue()
 	if xl {
